@@ -191,6 +191,9 @@ def handleCp (j : Json) : R Json := do
   let out := genes.map fun g => findHmmerHitsGene (tableI cuts 0) eq g
   return jObj [
     ("model", jArr (out.map fun o => match o with | some l => uids l | none => Json.null)),
+    ("spec", jArr (genes.map fun g => uids (specFindHmmerHits (tableI cuts 0) eq g))),
+    ("survivors", jArr (genes.map fun g =>
+      uids (specFilterB eq (g.filter fun h => decide (tableI cuts 0 h.prof < h.sc))))),
     ("ties", jArr (genes.map fun g => b (hasTie g))),
     ("nontrivial", b ((genes.zip out).any fun (g, o) => match o with | some l => l.length < g.length | none => false))]
 
